@@ -3,6 +3,7 @@ package e3
 import (
 	"bytes"
 	"compress/gzip"
+	"compress/zlib"
 	"context"
 	"errors"
 	"fmt"
@@ -26,6 +27,8 @@ type bodyScript struct {
 	Status      int    // default 200
 	ContentType string // default text/plain; version=0.0.4
 	Gzip        bool   // wire body is gzip(Body)
+	Negotiate   bool   // the target picks the coding from the request's Accept-Encoding: deflate if offered, else gzip if offered, else identity
+	deflate     bool   // (set by the transport) wire body is zlib(Body), Content-Encoding: deflate
 	Members     int    // > 1 with Gzip: the body is sent as that many concatenated gzip members (RFC 1952 2.2)
 	Body        []byte // exposition payload (before compression)
 	Chunks      []int  // sizes of successive Read results over the wire bytes (nil: one Read per 32 KiB)
@@ -40,6 +43,13 @@ type bodyScript struct {
 }
 
 func (b *bodyScript) wire() []byte {
+	if b.deflate {
+		var buf bytes.Buffer
+		zw := zlib.NewWriter(&buf)
+		_, _ = zw.Write(b.Body)
+		_ = zw.Close()
+		return buf.Bytes()
+	}
 	if !b.Gzip {
 		return b.Body
 	}
@@ -165,6 +175,18 @@ func (m *memTransport) RoundTrip(r *http.Request) (*http.Response, error) {
 		}
 		<-bs.Gate
 	}
+	if bs.Negotiate {
+		c := *bs
+		ae := strings.ToLower(strings.Join(r.Header.Values("Accept-Encoding"), ","))
+		c.Gzip, c.deflate = false, false
+		switch {
+		case strings.Contains(ae, "deflate"):
+			c.deflate = true
+		case strings.Contains(ae, "gzip"):
+			c.Gzip = true
+		}
+		bs = &c
+	}
 	st := bs.Status
 	if st == 0 {
 		st = 200
@@ -176,6 +198,9 @@ func (m *memTransport) RoundTrip(r *http.Request) (*http.Response, error) {
 	h := http.Header{"Content-Type": []string{ct}}
 	if bs.Gzip {
 		h.Set("Content-Encoding", "gzip")
+	}
+	if bs.deflate {
+		h.Set("Content-Encoding", "deflate")
 	}
 	var e error
 	switch bs.Err {
